@@ -43,6 +43,7 @@ Section Total.
   Hypothesis Hwrap : chk_wrap_unreserved = true.
   Hypothesis Hsh : chk_strop_handler = true.
   Hypothesis Heh : chk_enc_handler = true.
+  Hypothesis Hnofull : sc_full_check cfg = false.   (* trees with the whole-token loop: StropThmInst, via strop_no_full *)
   Hypothesis Hhead : rules_head_ok u nd heads cfg = true.
   Hypothesis Hhf : any_handler = true -> chk_handler u cfg = true /\ rules_hshape_ok u cfg = true.
 
@@ -252,6 +253,6 @@ Section Total.
     assert (G : ok_pat tyl s3 = true /\ ok_kw tyl s3 = true /\ ok_enc tyl s3 = true).
     { destruct S3 as [[-> G]|(Ha & Hs & Hid)]; [exact G|apply (hshape_good tyl s3 Hty Ha Hs Hid)]. }
     destruct G as (G1 & G2 & G3). exists s3. destruct (sc_reverify cfg); [|reflexivity].
-    unfold reverified. unfold ok_pat in G1; unfold ok_kw in G2; unfold ok_enc in G3. rewrite G1, G2, G3. reflexivity.
+    unfold reverified. unfold ok_pat in G1; unfold ok_kw in G2; unfold ok_enc in G3. rewrite G1, G2, G3, Hnofull. reflexivity.
   Qed.
 End Total.
